@@ -43,16 +43,18 @@ theorem C18_gen_shape_ok :
     Pyro.Gen.C18.foreignAccesses = 0 ∧
     1 ≤ Pyro.Gen.C18.defaultMin ∧ Pyro.Gen.C18.defaultMin ≤ Pyro.Gen.C18.defaultMax := by decide
 
-/-- **C18_gen_source.**  The statement skeletons of `Worker.process` and `Worker.run` in the current source are
-    exactly the ones the model's `wstep` / `signal` follow.  These two stay syntactic on purpose: what matters
-    is the ORDER of `wait / clear / test the slot / call / empty the slot / notify_done` and of
-    `store the job / set the event`, which no sequential probe can observe. -/
+/-- **C18_gen_source.**  The sequences of EFFECTS of `Worker.process` and `Worker.run` in the current source —
+    effects on the event, the job slot and the pool, in evaluation order, with private helper methods of the
+    class expanded in place, loop spelling / locals / helper names / docstrings / hints / log calls ignored —
+    are exactly the ones the model's `signal` and `wstep` follow: store the job, then set the event; and
+    per loop round wait, clear, read the slot (leave if empty), inside a try that catches Exception read the
+    slot and call it, then empty the slot, then `notify_done`.  The ORDER of these effects is the concurrency
+    fact (no sequential probe can observe it), so this obligation is about order, not about spelling. -/
 theorem C18_gen_source :
-    Pyro.Gen.C18.workerProcess = ["self.job = job", "self.job_available.set()"] ∧
+    Pyro.Gen.C18.workerProcess = ["slot:=arg0", "set"] ∧
     Pyro.Gen.C18.workerRun =
-      ["while True:", " self.job_available.wait()", " self.job_available.clear()", " if self.job is None:",
-       "  break", " try:", "  self.job()", " except Exception:", " self.job = None",
-       " self.pool.notify_done(self)", "self.pool = None"] := by decide
+      ["loop[", "wait", "clear", "read-slot", "exit-if isnone(slot)", "try[", "read-slot", "call-job",
+       "]except Exception[", "]", "slot:=None", "notify_done(self)", "]", "pool:=None"] := by decide
 
 /-- **C18_gen_behaviour.**  The real `Pool.__init__`, `Pool.process`, `Pool.notify_done` and `Pool.close` were
     *called* (no thread started) on every small pool state — sizes min 1..2, max min..min+1, open / closed,
